@@ -6,7 +6,7 @@ for d in sorted(os.listdir('/verif/seeded')):
     mp=f'/verif/seeded/{d}/meta.json'
     if not os.path.exists(mp): continue
     m=json.load(open(mp)); res=m['run_against_checks']['result']
-    first="missed, then caught" if res.startswith("MISSED") or res.startswith("caught (SEARCH-MISMATCH) once") else ('not caught' if res.startswith('NOT CAUGHT') else 'caught')
+    first="missed, then caught" if res.startswith("MISSED") or res.startswith("caught (SEARCH-MISMATCH) once") else ("caught (by C13)" if res.startswith("not a C18 violation") else None) or ('not caught' if res.startswith('NOT CAUGHT') else 'caught')
     rows.append((m.get('round',1),d,m['property'],first,res))
 out="\n### 12.6 Independently written property-breaking changes (`/verif/seeded/`)\n\nWritten by fresh sub-agents that saw one property's text and a scratch worktree only (rounds 2\nand 3 also got a one-paragraph hint which mechanisms to prefer, for variety); each was confirmed\nby me in the scratch worktree (existing suite: 476 passed, 0 failed with the patch; the\ndemonstration fails with it and passes without), then applied to `/repo`, checked with the quick\ntier, and reverted (`tools/seeded.sh`; `tools/seeded_all.sh` re-runs all of them and writes\n`seeded/RESULTS.txt`).\n\n| round | change | property | first run | what it took |\n|---|---|---|---|---|\n"
 for r,d,p,first,res in sorted(rows):
